@@ -476,6 +476,11 @@ func run(c *fw.Ctx) {
 	// ---- R: registry types ------------------------------------------------------------
 	c.Family("R:registry", "time.Time, *time.Time, time.Duration, *time.Location, json.RawMessage incl. nil pointers and unregistered pointer types, alone and nested")
 	t0 := time.Date(2020, 2, 3, 4, 5, 6, 7, time.UTC)
+	tz0 := time.Time{}
+	tz1 := time.Date(1, 1, 1, 1, 0, 0, 0, time.FixedZone("plus1", 3600))
+	tz2 := time.Time{}.Add(1)
+	tz3 := time.Unix(0, 0).UTC()
+	tz4 := time.Date(9999, 12, 31, 23, 59, 59, 999999999, time.UTC)
 	var nilT *time.Time
 	var nilL *time.Location
 	var nilD *time.Duration
@@ -492,6 +497,10 @@ func run(c *fw.Ctx) {
 		{"time.Time", t0, true, t0}, {"*time.Time", &t0, true, t0}, {"nil *time.Time", nilT, true, nil},
 		{"time.Duration", d, true, int64(5)}, {"*time.Location", time.UTC, true, time.UTC}, {"nil *time.Location", nilL, true, nil},
 		{"json.RawMessage", rm, true, rm}, {"nil json.RawMessage", json.RawMessage(nil), true, json.RawMessage{}},
+		// boundary instants: the zero time (also written in another zone), its neighbours, the epoch, extremes
+		{"zero time.Time", tz0, true, tz0}, {"*zero time.Time", &tz0, true, tz0}, {"zero instant in +01:00", tz1, true, tz1}, {"*zero instant in +01:00", &tz1, true, tz1},
+		{"zero time + 1ns", tz2, true, tz2}, {"unix epoch", tz3, true, tz3}, {"year 9999", tz4, true, tz4}, {"zero time.Duration", time.Duration(0), true, int64(0)},
+		{"empty json.RawMessage", json.RawMessage{}, true, json.RawMessage{}},
 		{"nil *time.Duration", nilD, false, nil}, {"*time.Duration", &d, false, nil}, {"nil *json.RawMessage", nilR, false, nil}, {"*json.RawMessage", &rm, false, nil},
 	}
 	for _, r := range rs {
